@@ -22,7 +22,7 @@ func init() { register(c14{}) }
 
 func (c14) ID() string { return "C14" }
 func (c14) Cases(t fw.Tier) int {
-	return tierN(t, 10000, 300000)
+	return tierN(t, 10000, 150000)
 }
 func (c14) Processes(t fw.Tier) int { return tierN(t, 3, 6) }
 func (c14) Rule() string {
